@@ -275,6 +275,11 @@ func FromInterface(v interface{}) (Object, error) {
 	case error:
 		return &Error{Value: &String{Value: v.Error()}}, nil
 	case map[string]Object:
+		if v == nil {
+			// a nil Go map reads like an empty map but a write from the
+			// script (m.k = v) would panic
+			v = make(map[string]Object)
+		}
 		return &Map{Value: v}, nil
 	case map[string]interface{}:
 		kv := make(map[string]Object)
